@@ -45,6 +45,7 @@ type c10R struct {
 	Eofs []bool `json:"eofs,omitempty"`
 	Data []int  `json:"data"`
 	Ret  int    `json:"ret"`
+	Any  bool   `json:"any"` // expected results only: not modelled (alternatives with an unmodelled state)
 	// real results only
 	Eof    bool   `json:"eof"`
 	ErrStr string `json:"errstr,omitempty"`
@@ -345,6 +346,9 @@ func c10Do(dm *DagModifier, ds ipld.DAGService, st *c10Step, ctxRead bool) (r c1
 
 // c10SameR: do the real results equal the expected ones (for this kind of call)?
 func c10SameR(op string, real, exp c10R) bool {
+	if exp.Any {
+		return true
+	}
 	if real.Err != exp.Err {
 		return false
 	}
@@ -632,6 +636,147 @@ func c10Replay(t *testing.T) {
 	vEmit(M{"summary": true, "n": len(raws), "configs": len(cfgSeen)})
 }
 
+// ---------------------------------------------------------------------------------------------
+// record: random histories on larger files, one NDJSON event per call
+
+func c10RandBytes(rng *rand.Rand, n int) []byte {
+	b := make([]byte, n)
+	for i := range b {
+		b[i] = byte(1 + rng.Intn(250)) // never 0 (zero fill) and never the marker
+	}
+	return b
+}
+
+// c10WPos locates the marker in the read-back of the marker probe and checks that the rest of it
+// is the view (zero-extended up to the marker): the projection of "where the next Write lands".
+func c10WPos(view, wview []int) (int, bool) {
+	pos := -1
+	for i, x := range wview {
+		if x == c10Marker {
+			pos = i
+			break
+		}
+	}
+	if pos < 0 {
+		return -1, false
+	}
+	want := append([]int{}, view...)
+	for len(want) < pos+1 {
+		want = append(want, 0)
+	}
+	want[pos] = c10Marker
+	return pos, c10EqInts(want, wview)
+}
+
 func c10Record(t *testing.T) {
-	t.Skip("record mode: see below")
+	rng := vRand()
+	runs, nops := 14, 20
+	if !vQuick() {
+		runs = 120
+	}
+	for run := 0; run < runs; run++ {
+		var size int
+		switch run % 4 {
+		case 0:
+			size = rng.Intn(40)
+		case 1:
+			size = rng.Intn(700)
+		case 2:
+			size = 1000 + rng.Intn(3097)
+		default:
+			size = rng.Intn(4097)
+		}
+		chunk := []int{16, 64, 256, 512}[rng.Intn(4)]
+		c := c10Cfg{Layout: []string{"bal", "tri"}[rng.Intn(2)], ImpRaw: rng.Intn(2) == 0, ImpChunk: chunk,
+			ModChunk: chunk, MaxLinks: 2 + rng.Intn(7), V1: rng.Intn(2) == 0, CtxRead: rng.Intn(2) == 0}
+		c.ModRaw = c.ImpRaw
+		if rng.Intn(3) == 0 {
+			c.ModChunk = []int{16, 64, 256, 512}[rng.Intn(4)]
+		}
+		if rng.Intn(6) == 0 {
+			c.Ident = true
+		}
+		if rng.Intn(5) == 0 && size > 0 {
+			// a single dag-pb leaf carrying the data inline
+			c.Layout, c.ImpRaw, c.ImpChunk = "bal", false, size
+		}
+		content := c10RandBytes(rng, size)
+		dm, ds, err := c10Start(content, c)
+		if err != nil {
+			vEmit(M{"ev": "Broken", "what": "setup " + c.String() + ": " + err.Error()})
+			continue
+		}
+		vEmit(M{"ev": "Reset", "content": c10Syms(content), "root": c10RootKind(dm.curNode), "ident": c.Ident, "cfg": c.String()})
+		cur := 0 // only used to aim offsets; the model does not see it
+		for i := 0; i < nops; i++ {
+			sz64, _ := dm.Size()
+			sz := int(sz64)
+			st := &c10Step{}
+			near := func() int { // an offset in [0, size+64], biased to chunk boundaries / the end / the position
+				switch rng.Intn(5) {
+				case 0:
+					return sz + rng.Intn(65)
+				case 1:
+					return (rng.Intn(sz/chunk+1))*chunk + rng.Intn(3) - 1 + 1
+				case 2:
+					return cur
+				default:
+					return rng.Intn(sz + 1)
+				}
+			}
+			switch op := rng.Intn(20); {
+			case op < 5:
+				st.Op, st.B = "Write", c10Syms(c10RandBytes(rng, rng.Intn(65)))
+			case op < 9:
+				st.Op, st.B, st.O = "WriteAt", c10Syms(c10RandBytes(rng, rng.Intn(65))), near()
+			case op < 13:
+				st.Op, st.K = "Read", []int{0, 1, 7, chunk, chunk + 1, 64, 2 * chunk}[rng.Intn(7)]
+			case op < 16:
+				st.Op, st.W = "Seek", rng.Intn(3)
+				tgt := near()
+				if rng.Intn(8) == 0 {
+					tgt = -1 - rng.Intn(3)
+				}
+				switch st.W {
+				case 0:
+					st.O = tgt
+				case 1:
+					st.O = tgt - cur
+				default:
+					st.O = tgt - sz
+				}
+				if rng.Intn(30) == 0 {
+					st.W = 3
+				}
+			case op < 17:
+				st.Op, st.O = "Truncate", near()
+			case op < 18:
+				st.Op = "Size"
+			case op < 19:
+				st.Op = "Sync"
+			default:
+				st.Op = "GetNode"
+			}
+			r := c10Do(dm, ds, st, c.CtxRead)
+			p := c10Probe(dm, ds)
+			wpos, wok := c10WPos(p.View, p.Wview)
+			if p.Fail == "" {
+				cur = p.Cur
+			}
+			if r.Data == nil {
+				r.Data = []int{}
+			}
+			if st.B == nil {
+				st.B = []int{}
+			}
+			if p.View == nil {
+				p.View = []int{}
+			}
+			vEmit(M{"ev": st.Op, "b": st.B, "o": st.O, "w": st.W, "k": st.K,
+				"r": M{"n": r.N, "err": r.Err, "eof": r.Eof, "data": r.Data, "ret": r.Ret, "errstr": r.ErrStr,
+					"identerr": strings.Contains(r.ErrStr, c10IdentErr)},
+				"p": M{"fail": p.Fail, "size": p.Size, "cur": p.Cur, "view": p.View, "wpos": wpos, "wok": wok,
+					"identfail": strings.Contains(p.Fail, c10IdentErr)}})
+		}
+	}
 }
